@@ -4,7 +4,7 @@
 #   ./run.sh --setup          warm the Go build cache (plain and -race binaries)
 # Environment: VERIF_SEED (default 1), VERIF_TIER (used when no tier argument is given),
 #              VERIF_REPO (default /repo; only the self-test points it at a mutated scratch copy),
-#              VERIF_WORKERS (default: all cores).
+#              VERIF_WORKERS (default: all cores), VERIF_COVER (directory for Go coverage counters of the library; self-test only).
 # Every invocation rebuilds the monitor binary from the repository's current working tree.
 set -u
 VERIF_DIR="$(cd "$(dirname "${BASH_SOURCE[0]}")" && pwd)"
@@ -58,7 +58,12 @@ done
 
 RACE=""
 case "$PROP" in C19) RACE="-race";; esac
-build "$BUILD/mon" $RACE
+COVER=""
+if [ -n "${VERIF_COVER:-}" ]; then # selftest/coverage.sh: which library statements does the workload reach
+  COVER="-cover -covermode=atomic -coverpkg=all"
+  mkdir -p "$VERIF_COVER"; export GOCOVERDIR="$VERIF_COVER"
+fi
+build "$BUILD/mon" $RACE $COVER
 
 mkdir -p "$BUILD/work"
 if [ -n "$REPLAY" ]; then
